@@ -29,6 +29,11 @@ Sub-checks / violation keys
   C02:raises:scaled_mean_outside_grid_recursion    (KNOWN FINDING) gamma_in + alpha_gamma_in*x outside the grid with zero
                                      scatter: endless re-draw -> RecursionError
   C02:raises:DdtDdKDE_los_draw       regression witness (repaired by 377b90b): DdtDdKDE lens + line-of-sight draw raised
+  C02:raises:descending_axis         a kinematic scaling grid whose axis/axes are tabulated high-to-low (legal: interp1d sorts,
+                                     RegularGridInterpolator takes strictly descending axes), that parameter sampled at population
+                                     level (a_ani / beta_inf / gamma_in / log_m2l; per-lens gamma_pl as a by-stander), prior bounds
+                                     strictly inside the interpolation range: an in-box vector raised  (run_descending; the random
+                                     configurations of run_case also reverse axes now and then, keyed C02:inside:raises:<ExcType>)
 """
 import copy, json, sys, os, time
 for _v in ("OMP_NUM_THREADS", "OPENBLAS_NUM_THREADS", "MKL_NUM_THREADS"):   # tiny matrices: threads only cost time
@@ -83,8 +88,8 @@ def gen_case(rng, cosmology, t0, tier):
     return m
 
 
-def kin_scaling_for(m, rng, nkin):
-    """kinematic scaling grid of a kinematic lens, consistent with the globally sampled parameters"""
+def kin_scaling_for(m, rng, nkin, j=0):
+    """kinematic scaling grid of lens j (a kinematic lens), consistent with the globally sampled parameters"""
     names, axes = [], []
     if m["anisotropy_sampling"]:
         names.append("a_ani"); axes.append(np.linspace(A_ANI_AX[0], A_ANI_AX[1], 4))
@@ -98,6 +103,13 @@ def kin_scaling_for(m, rng, nkin):
     if not names: return {}
     shape = tuple(len(a) for a in axes)
     grids = [rng.uniform(0.8, 1.25, size=shape) for _ in range(nkin)]
+    # orientation: about a third of the grids have some axes tabulated high-to-low (own random stream, the draws above stay as
+    # they were; the grid values are random, so they need no flipping)
+    rd = rng_of(m["lens_seed"], 13 + j)
+    if rd.random() < 0.35:
+        flip = [bool(rd.random() < 0.6) for _ in axes]
+        if not any(flip): flip[int(rd.integers(len(axes)))] = True
+        axes = [np.ascontiguousarray(a[::-1]) if f else a for a, f in zip(axes, flip)]
     return dict(kin_scaling_param_list=names, j_kin_scaling_param_axes=axes if len(axes) > 1 or rng.random() < 0.5 else axes[0],
                 j_kin_scaling_grid_list=grids)
 
@@ -119,7 +131,7 @@ def build(m):
             for key in list(kw):
                 if key.startswith("cov_") or key.startswith("error_cov_"): kw[key] = np.zeros_like(kw[key])
         if t in KIN_TYPES:
-            kw.update(kin_scaling_for(m, rng, nkin))
+            kw.update(kin_scaling_for(m, rng, nkin, j))
             # (with all-zero covariances a rank-1 systematic term gives a numerically singular, non-PD matrix for which
             #  the normalised KinLikelihood deliberately raises "needs to be positive definite": outside this property)
             if m["sigma_v_systematics"] and not m.get("singular"): kw["sigma_sys_error_include"] = bool(rng.random() < 0.7)
@@ -297,8 +309,17 @@ def run_case(rec, m, only=None):
         np.random.seed(int(rng.integers(2 ** 31)))
         return cl.likelihood(xx)
 
+    desc_axes = {}
+    for jl, l in enumerate(lenses):
+        ax = l.get("j_kin_scaling_param_axes")
+        if ax is None: continue
+        ax = ax if isinstance(ax, list) else [ax]
+        dn = [nm for nm, a in zip(l["kin_scaling_param_list"], ax) if a[0] > a[-1]]
+        if dn: desc_axes["lens%d" % jl] = dn
+    if desc_axes: rec.tally("configurations_with_descending_axis")
+
     def inp_of(x, **kw):
-        return dict(model=m, x=[float(v) for v in x], **kw)
+        return dict(model=m, x=[float(v) for v in x], **(dict(descending_axes=desc_axes) if desc_axes else {}), **kw)
 
     def check_outside(x, mode, i):
         inp = inp_of(x, expect="outside", component=int(i), name=names[i], mode=mode)
@@ -518,6 +539,117 @@ def run_candidates(rec):
         sys.setrecursionlimit(old)
 
 
+# ---------------------------------------------------------------------------------------------------------
+# kinematic scaling grids tabulated high-to-low
+DESC_FAMILIES = [["a_ani"], ["a_ani"], ["a_ani", "beta_inf"], ["gamma_in"], ["log_m2l"], ["gamma_in", "log_m2l"], ["a_ani", "gamma_in"],
+                 ["a_ani", "gamma_pl"], ["a_ani", "beta_inf", "log_m2l"]]
+DESC_RANGE = dict(a_ani=A_ANI_AX, beta_inf=BETA_INF_AX, gamma_in=GAMMA_IN_AX, log_m2l=LOG_M2L_AX, gamma_pl=GAMMA_PL_AX)
+DESC_SIGMA_MAX = dict(a_ani=0.5, beta_inf=0.3, gamma_in=0.3, log_m2l=0.2)
+
+
+def desc_config(cfg):
+    """cfg = [seed, index] -> (json-able description, CosmoLikelihood); everything is derived from cfg"""
+    from hierarc.Likelihood.cosmo_likelihood import CosmoLikelihood
+    rng = rng_of(cfg[0], 1000 + int(cfg[1]))
+    ch = lambda xs: xs[int(rng.integers(len(xs)))]
+    names = list(DESC_FAMILIES[int(cfg[1]) % len(DESC_FAMILIES)])
+    nd = len(names)
+    # which axes are descending: a 1-d grid always; >=2-d: one axis (each in turn), or all
+    if nd == 1: desc = [True]
+    else:
+        k = (int(cfg[1]) // len(DESC_FAMILIES)) % (nd + 1)
+        desc = [True] * nd if k == nd else [i == k for i in range(nd)]
+    axes = []
+    for nm, d in zip(names, desc):
+        lo, hi = DESC_RANGE[nm]
+        npt = int(rng.integers(3, 7))
+        a = np.concatenate([[lo], np.sort(rng.uniform(lo + 0.05 * (hi - lo), hi - 0.05 * (hi - lo), npt - 2)), [hi]])   # uneven spacing
+        axes.append(np.ascontiguousarray(a[::-1]) if d else a)
+    ttype = ch(KIN_TYPES)
+    nkin = int(rng.integers(1, 4))
+    shape = tuple(len(a) for a in axes)
+    bare = nd == 1 and bool(rng.random() < 0.5)          # a 1-d axis may be handed over as the bare array (interp1d) or as [array]
+    lens = dict(z_lens=float(np.round(rng.uniform(0.2, 0.8), 3)), z_source=float(np.round(rng.uniform(1.2, 2.5), 3)), likelihood_type=ttype,
+                num_distribution_draws=int(rng.integers(3, 9)), kin_scaling_param_list=names, j_kin_scaling_param_axes=axes[0] if bare else axes,
+                j_kin_scaling_grid_list=[rng.uniform(0.8, 1.25, size=shape) for _ in range(nkin)], **lens_kwargs(ttype, rng, nkin))
+    lenses = [lens]
+    if rng.random() < 0.3:   # a by-stander without scaling grid
+        t2 = ch(["DdtGaussian", "IFUKinCov", "DsDdsGaussian"])
+        lenses.append(dict(z_lens=0.45, z_source=1.9, likelihood_type=t2, **lens_kwargs(t2, rng, 2)))
+        if rng.random() < 0.5: lenses.reverse()
+    model, lo_l, hi_l, lo_k, hi_k = {}, {}, {}, {}, {}
+    inner = lambda nm: (DESC_RANGE[nm][0] + 0.1 * (DESC_RANGE[nm][1] - DESC_RANGE[nm][0]), DESC_RANGE[nm][1] - 0.1 * (DESC_RANGE[nm][1] - DESC_RANGE[nm][0]))
+    if "a_ani" in names:
+        amodel = "GOM" if "beta_inf" in names else ch(["OM", "const"])
+        adist = ch(["NONE", "GAUSSIAN", "GAUSSIAN", "GAUSSIAN_SCALED"] if amodel in ("OM", "GOM") else ["NONE", "GAUSSIAN", "GAUSSIAN"])
+        model.update(anisotropy_sampling=True, anisotropy_model=amodel, anisotropy_distribution=adist)
+        smax = 0.2 if adist == "GAUSSIAN_SCALED" else DESC_SIGMA_MAX["a_ani"]     # scaled: sigma is relative to a_ani
+        lo_k.update(a_ani=inner("a_ani")[0], a_ani_sigma=0.0); hi_k.update(a_ani=inner("a_ani")[1], a_ani_sigma=smax)
+        if amodel == "GOM":
+            lo_k.update(beta_inf=inner("beta_inf")[0], beta_inf_sigma=0.0); hi_k.update(beta_inf=inner("beta_inf")[1], beta_inf_sigma=DESC_SIGMA_MAX["beta_inf"])
+    for nm in ("gamma_in", "log_m2l"):
+        if nm in names:
+            dist = ch(["NONE", "GAUSSIAN", "GAUSSIAN"])
+            model.update({nm + "_sampling": True, nm + "_distribution": dist})
+            lo_l.update({nm: inner(nm)[0], nm + "_sigma": 0.0}); hi_l.update({nm: inner(nm)[1], nm + "_sigma": DESC_SIGMA_MAX[nm]})
+    if "gamma_pl" in names:
+        lo_l.update(gamma_pl_list=[inner("gamma_pl")[0]]); hi_l.update(gamma_pl_list=[inner("gamma_pl")[1]])
+    if rng.random() < 0.5:
+        model.update(lambda_mst_sampling=True, lambda_mst_distribution=ch(["NONE", "GAUSSIAN"]))
+        lo_l.update(lambda_mst=0.8, lambda_mst_sigma=0.0); hi_l.update(lambda_mst=1.2, lambda_mst_sigma=0.1)
+    kb = dict(kwargs_lower_cosmo=dict(h0=50., om=0.05), kwargs_upper_cosmo=dict(h0=100., om=0.5), kwargs_lower_lens=lo_l, kwargs_upper_lens=hi_l,
+              kwargs_lower_kin=lo_k, kwargs_upper_kin=hi_k)
+    cosmo_fixed = bool(rng.random() < 0.7)          # a sampled cosmology costs ~40 ms per evaluation (astropy)
+    extra = {}
+    if cosmo_fixed:
+        from astropy.cosmology import FlatLambdaCDM
+        extra["cosmo_fixed"] = FlatLambdaCDM(H0=68.0, Om0=0.32)
+    normalized = bool(rng.random() < 0.5)
+    descr = dict(cfg=[int(c) for c in cfg], params=names, descending=desc, axes=[a.tolist() for a in axes], axes_as_bare_array=bare,
+                 types=[l["likelihood_type"] for l in lenses], model=model, lower=dict(lens=lo_l, kin=lo_k), upper=dict(lens=hi_l, kin=hi_k),
+                 cosmo_fixed=cosmo_fixed, normalized=normalized)
+    cl = CosmoLikelihood(lenses, "FLCDM", model, kb, normalized=normalized, interpolate_cosmo=True, num_redshift_interp=25, **extra)
+    return descr, cl
+
+
+def run_descending(rec, cfg, npts, only=None):
+    """in-box vectors of a configuration whose interpolated, population-sampled parameters have descending grid axes"""
+    descr, cl = desc_config(cfg)
+    lower = np.array(cl.param.param_bounds[0], dtype=float); upper = np.array(cl.param.param_bounds[1], dtype=float)
+    names = cl.param.param_list()
+    rng = rng_of(cfg[0], 5000 + int(cfg[1]))
+    n = len(lower)
+    pts = [("centre", 0.5 * (lower + upper)), ("corner_lower", lower.copy()), ("corner_upper", upper.copy())]
+    for nm in descr["params"]:               # each interpolated parameter on its lower / upper prior bound, the others interior
+        if nm in names:
+            for side, b in (("lo", lower), ("up", upper)):
+                x = lower + rng.uniform(0.02, 0.98, size=n) * (upper - lower); x[names.index(nm)] = b[names.index(nm)]
+                pts.append(("edge_%s_%s" % (nm, side), x))
+    while len(pts) < npts:
+        pts.append(("interior", lower + rng.uniform(0.02, 0.98, size=n) * (upper - lower)))
+    if only is not None: pts = [(only.get("kind", "replay"), np.array(only["x"], dtype=float))]
+    old = sys.getrecursionlimit(); sys.setrecursionlimit(600)     # a re-draw loop must show as a failure, not hang
+    try:
+        for kind, x in pts:
+            np_seed = int(only["np_seed"]) if only is not None else int(rng.integers(2 ** 31))
+            inp = dict(descending=descr, names=names, x=[float(v) for v in x], kind=kind, np_seed=np_seed, expect="inside")
+            rec.case(dict(descending=descr["cfg"], x=[float(v) for v in x]), kind="inside/descending_axis/%dd" % len(descr["params"]))
+            np.random.seed(np_seed)
+            try:
+                v = cl.likelihood(x if kind != "centre" else [float(t) for t in x])
+            except BaseException as e:
+                if isinstance(e, (KeyboardInterrupt, SystemExit)): raise
+                rec.violation("C02:raises:descending_axis", "kinematic scaling grid with descending axis, prior bounds strictly inside the interpolation "
+                              "range: likelihood raised for a vector inside the box", inp,
+                              repr(e)[:200] + " @ " + "".join(traceback.format_tb(e.__traceback__)[-1:]).strip()[-160:], "a real number or -inf")
+                continue
+            tag, _ = classify(v)
+            if tag in ("nan", "plus_inf", "not_real"):
+                rec.violation("C02:inside:" + tag, "log-probability must be a real number or -inf", inp, jsonable(v), "finite real or -inf")
+    finally:
+        sys.setrecursionlimit(old)
+
+
 def main():
     args = parse_args(PROP)
     rec = Recorder(PROP, args.tier, args.seed, rule="4 cosmologies x 14 lens types (+random extra lenses, sampled blocks, interp/plain distances, SNe, prior): "
@@ -526,6 +658,7 @@ def main():
         with open(args.replay) as f: rp = json.load(f)
         inp = unjson(rp["input"])
         if "candidate" in inp: rec.guard(run_candidates, rec); rec.write(args.out); return
+        if "descending" in inp: rec.guard(run_descending, rec, inp["descending"]["cfg"], 0, only=inp); rec.write(args.out); return
         if inp.get("model", {}).get("witness"): rec.guard(run_witness, rec)
         elif inp.get("model", {}).get("kde_los_witness"): rec.guard(run_kde_los_witness, rec)
         elif "candidate" in inp: rec.guard(run_candidates, rec)
@@ -535,7 +668,12 @@ def main():
     rec.guard(run_witness, rec)
     rec.guard(run_kde_los_witness, rec)
     rec.guard(run_candidates, rec)
-    t0 = time.process_time(); budget = 2 * 25 if args.tier == "quick" else 320
+    t0 = time.process_time()                                  # the descending-axis block is inside the time budget of the tier
+    ndesc = 27 if args.tier == "quick" else 216               # 9 families x orientations (each axis alone, all axes)
+    for i in range(ndesc):
+        rec.guard(run_descending, rec, [args.seed, i], 12 if args.tier == "quick" else 20)
+    rec.tally("descending_axis_configurations", ndesc)
+    budget = 2 * 25 if args.tier == "quick" else 320
     combos = [(c, t) for t in TYPES for c in COSMOLOGIES]
     rounds = 3 if args.tier == "quick" else 40   # the first round covers all 56 (cosmology, type) pairs; then until the budget
     done = 0
